@@ -90,6 +90,14 @@ CustomEnd ==
      ELSE /\ viol' = viol /\ fr' = fr
   /\ UNCHANGED <<scen, kind, sm, seen>>
 
+\* Generator.Example(seed) brackets its Custom function calls like an invocation of a property function
+ExampleBegin == /\ Is("example.begin") /\ Adv /\ viol' = viol \cup If(fr # <<>>, "invocation_overlap") /\ fr' = <<>> /\ sm' = NoSM
+                /\ kind' = "example" /\ seen' = seen \cup {"example"} /\ UNCHANGED scen
+ExampleEnd ==
+  /\ Is("example.end") /\ Adv
+  /\ viol' = viol \cup If(\E i \in 1..Len(fr) : fr[i].stack # <<>> \/ fr[i].running # 0, "cleanup_not_run")
+  /\ fr' = <<>> /\ UNCHANGED <<scen, kind, sm, seen>>
+
 OnceEnd ==
   /\ Is("h.once.end") /\ Adv
   /\ viol' = viol \cup If(\E i \in 1..Len(fr) : fr[i].stack # <<>>, "cleanup_not_run")
@@ -201,12 +209,12 @@ SmEnd ==
   /\ sm' = [sm EXCEPT !.active = FALSE]
   /\ UNCHANGED <<scen, fr, kind, seen>>
 
-Handled == {"scen.begin", "scen.end", "h.phase", "h.once.begin", "inv.begin", "cinv.begin", "inv.end", "cinv.end", "h.custom.end", "h.once.end",
+Handled == {"example.begin", "example.end", "scen.begin", "scen.end", "h.phase", "h.once.begin", "inv.begin", "cinv.begin", "inv.end", "cinv.end", "h.custom.end", "h.once.end",
             "cleanup.reg", "cleanup.run", "cleanup.end", "ctx", "sm.begin", "sm.inv.begin", "sm.inv.end", "sm.action.begin", "sm.action.end",
             "draw", "call", "h.repeat.more", "sm.end"}
 Other == /\ l <= Len(Trace) /\ Trace[l].ev \notin Handled /\ Adv /\ UNCHANGED <<scen, fr, kind, sm, viol, seen>>
 
-Next == ScenBegin \/ ScenEnd \/ Phase \/ OnceBegin \/ InvBegin \/ CInvBegin \/ InvEnd \/ CInvEnd \/ CustomEnd \/ OnceEnd \/ Reg \/ Run \/ RunEnd
+Next == ExampleBegin \/ ExampleEnd \/ ScenBegin \/ ScenEnd \/ Phase \/ OnceBegin \/ InvBegin \/ CInvBegin \/ InvEnd \/ CInvEnd \/ CustomEnd \/ OnceEnd \/ Reg \/ Run \/ RunEnd
         \/ Ctx \/ SmBegin \/ SmInvBegin \/ SmInvEnd \/ SmActBegin \/ SmActEnd \/ SmDraw \/ SmCall \/ RepeatMore \/ SmEnd \/ Other
 
 Spec == Init /\ [][Next]_vars
